@@ -112,6 +112,16 @@ def write_pptx(deck: dict) -> bytes:
                 f'</p:nvSpPr><p:spPr/>{_txbody([s["notes"]])}</p:sp></p:spTree></p:cSld></p:notes>')
             files[f"ppt/notesSlides/_rels/notesSlide{n}.xml.rels"] = _rels(
                 [("rId1", f"{REL}/slide", f"../slides/slide{n}.xml", False)])
+        if s.get("comments"):
+            # legacy comment part ppt/comments/comment<n>.xml (one p:cm per token id)
+            srels.append(("rIdC", f"{REL}/comments", f"../comments/comment{n}.xml", False))
+            files[f"ppt/comments/comment{n}.xml"] = (
+                f'<?xml version="1.0"?><p:cmLst {NS}>' + "".join(
+                    f'<p:cm authorId="0" dt="2024-01-01T00:00:00.000" idx="{k}"><p:pos x="10" y="10"/>'
+                    f'<p:text>{escape(word(t))}</p:text></p:cm>' for k, t in enumerate(s["comments"], start=1))
+                + "</p:cmLst>")
+            files["ppt/commentAuthors.xml"] = (f'<?xml version="1.0"?><p:cmAuthorLst {NS}><p:cmAuthor id="0" name="Rev" '
+                                               'initials="R" lastIdx="9" clrIdx="0"/></p:cmAuthorLst>')
         files[f"ppt/slides/slide{n}.xml"] = (
             f'<?xml version="1.0"?><p:sld {NS}><p:cSld><p:spTree><p:nvGrpSpPr><p:cNvPr id="1" name=""/>'
             f'<p:cNvGrpSpPr/><p:nvPr/></p:nvGrpSpPr><p:grpSpPr/>{shapes}</p:spTree></p:cSld></p:sld>')
